@@ -125,8 +125,14 @@ def apply_rewrites(case):
                         it[1], it[2] = f"intc_{k}", []
                     else:
                         it[1], it[2] = "intc", [str(k)]
-            items.insert(0, ["I", "intcblock", [str(c) for c in consts]])
-            mapping = {o: n + 1 for o, n in mapping.items()}
+            head = [["I", "intcblock", [str(c) for c in consts]]]
+            if (choices[3] // 2) % 2:
+                # the intcblock need not be the first instruction of the entry block: stack-neutral code may
+                # precede it (composition with the padding rewrite)
+                head = [["I", "txn", ["Fee"]], ["I", "pop", []]] + head
+                applied.append("intcblock_after_padding")
+            items[0:0] = head
+            mapping = {o: n + len(head) for o, n in mapping.items()}
             applied.append("intcblock")
     # ---- padding at statement boundaries
     if "padding" in rw:
